@@ -13,9 +13,11 @@ import (
 	"encoding/hex"
 	"fmt"
 	"hash"
+	"path/filepath"
 	"runtime"
 	"sort"
 	"strconv"
+	"strings"
 	"sync"
 	"testing/synctest"
 	"time"
@@ -80,7 +82,9 @@ type World struct {
 	infra     string
 	truncated bool
 	lockSeq   int
+	hold      map[string]int
 	endState  string
+	codeRand  *splitmix
 	finished  bool
 	simEnd    time.Duration
 }
@@ -241,7 +245,7 @@ func (w *World) Logf(format string, args ...any) {
 		if w.pending == nil {
 			w.pending = map[string][]string{}
 		}
-		w.pending[key] = append(w.pending[key], s)
+		w.pending[key] = append(w.pending[key], fmt.Sprintf("@%s %s", time.Since(w.start), s))
 	}
 	w.mu.Unlock()
 }
@@ -265,7 +269,12 @@ func (w *World) flushPendingLocked() {
 
 func (w *World) logLocked(s string) {
 	w.logN++
-	line := fmt.Sprintf("%d t=%s %s", w.logN, time.Since(w.start), s)
+	var line string
+	if w.finished {
+		line = fmt.Sprintf("%d %s", w.logN, s) // after the bubble: no clock
+	} else {
+		line = fmt.Sprintf("%d t=%s %s", w.logN, time.Since(w.start), s)
+	}
 	w.h.Write([]byte(line))
 	w.h.Write([]byte{'\n'})
 	if w.cfg.KeepLog {
@@ -307,7 +316,7 @@ func (w *World) ViolationSig(clause, sig string, format string, args ...any) {
 		if w.pending == nil {
 			w.pending = map[string][]string{}
 		}
-		w.pending[key] = append(w.pending[key], "VIOLATION "+clause+" "+d)
+		w.pending[key] = append(w.pending[key], fmt.Sprintf("@%s VIOLATION %s %s", time.Since(w.start), clause, d))
 	}
 	w.pokeRoot()
 }
@@ -327,11 +336,11 @@ func (w *World) Failed() bool {
 	defer w.mu.Unlock()
 	return w.viol != nil || w.infra != ""
 }
-func (w *World) Now() time.Time              { return time.Now() }
-func (w *World) Elapsed() time.Duration      { return time.Since(w.start) }
-func (w *World) Steps() int                  { return w.steps }
-func (w *World) SetEndState(s string)        { w.endState = s }
-func (w *World) Truncated() bool             { return w.truncated }
+func (w *World) Now() time.Time         { return time.Now() }
+func (w *World) Elapsed() time.Duration { return time.Since(w.start) }
+func (w *World) Steps() int             { return w.steps }
+func (w *World) SetEndState(s string)   { w.endState = s }
+func (w *World) Truncated() bool        { return w.truncated }
 func (w *World) Fingerprint() string {
 	w.mu.Lock()
 	w.flushPendingLocked()
@@ -386,13 +395,42 @@ func (w *World) startTask(t *Task, fn func()) {
 			w.pokeRoot()
 			if r != nil {
 				if _, ok := r.(Crashed); !ok {
-					panic(r)
+					w.taskPanic(t, r)
 				}
 			}
 		}()
 		fn()
 	}()
 	<-reg
+}
+
+// taskPanic classifies a panic that unwound a task: raised inside the code under test it
+// is a violation (an operation blew up instead of behaving); raised in harness or kernel
+// code it is an infrastructure problem.
+func (w *World) taskPanic(t *Task, r any) {
+	pcs := make([]uintptr, 64)
+	n := runtime.Callers(3, pcs)
+	frames := runtime.CallersFrames(pcs[:n])
+	site, file := "?", ""
+	var trace []string
+	for {
+		f, more := frames.Next()
+		if !strings.HasPrefix(f.Function, "runtime.") && f.Function != "" {
+			if site == "?" {
+				site, file = f.Function, f.File
+			}
+			trace = append(trace, fmt.Sprintf("%s (%s:%d)", f.Function, filepath.Base(f.File), f.Line))
+		}
+		if !more || len(trace) > 12 {
+			break
+		}
+	}
+	base := filepath.Base(file)
+	if strings.HasPrefix(base, "verif_") || strings.Contains(site, "verif.local/vsim") || strings.Contains(file, "/verif/") {
+		w.Infra("panic in harness task %s: %v at %s", t.ID, r, strings.Join(trace, " <- "))
+		return
+	}
+	w.ViolationSig("panic-in-code-under-test", site, "task %s: %v at %s", t.ID, r, strings.Join(trace, " <- "))
 }
 
 // Spawn starts a harness-level task (client, node, worker). id must be unique and stable.
@@ -469,7 +507,7 @@ func AfterFunc(d time.Duration, fn func()) *time.Timer {
 			w.pokeRoot()
 			if r != nil {
 				if _, ok := r.(Crashed); !ok {
-					panic(r)
+					w.taskPanic(t, r)
 				}
 			}
 		}()
@@ -740,6 +778,7 @@ func (w *World) collectReady() []*entry {
 			ready = append(ready, e)
 		}
 	}
+	ready = w.applyHold(ready)
 	// choice 0 = keep running the task that ran last, if it is ready
 	for i, e := range ready {
 		if e.key == w.lastKey && i > 0 {
@@ -749,6 +788,57 @@ func (w *World) collectReady() []*entry {
 		}
 	}
 	return ready
+}
+
+// HoldKinds makes requests of the given kinds "slow": at each step, with the given
+// probability (permille, one recorded draw per step and kind), they are left pending as
+// long as something else can run. Used to let background Keep writes complete only many
+// operations later.
+func (w *World) HoldKinds(m map[string]int) { w.hold = m }
+
+func (w *World) applyHold(ready []*entry) []*entry {
+	if len(w.hold) == 0 || len(ready) < 2 {
+		return ready
+	}
+	held := map[string]bool{}
+	for _, kind := range SortedKeys(w.hold) {
+		p := w.hold[kind]
+		if p <= 0 {
+			continue
+		}
+		present := false
+		for _, e := range ready {
+			if e.kind == kind {
+				present = true
+			}
+		}
+		if !present {
+			continue
+		}
+		// w.mu is held by the caller; draw() does not take it
+		v := w.draw(2, func() int {
+			if w.rng.intn(1000) < p {
+				return 1
+			}
+			return 0
+		})
+		if v == 1 {
+			held[kind] = true
+		}
+	}
+	if len(held) == 0 {
+		return ready
+	}
+	var rest []*entry
+	for _, e := range ready {
+		if !held[e.kind] {
+			rest = append(rest, e)
+		}
+	}
+	if len(rest) == 0 {
+		return ready
+	}
+	return rest
 }
 
 func (w *World) grant(ready []*entry) {
